@@ -257,7 +257,8 @@ class Engine:
             rep.status, rep.reason = "contract-error", "no contract"
             return rep
         rep.digest = info.digest()
-        self.fork_checks = bool(c.extra.get("fork_checks"))
+        # feasibility / entailment questions run in a forked child with a hard kill unless the contract opts out (fork_checks=False)
+        self.fork_checks = bool(c.extra.get("fork_checks", True))
         variants = c.variants or [{}]
         try:
             for vi, var in enumerate(variants):
